@@ -52,3 +52,21 @@ pub proof fn quota_is_eight() ensures R == 8 //@ quota_is_eight C02
 { }
 
 } // verus!
+verus! {
+/// stand-in for the default type parameter of HashMap/HashSet (ahash::RandomState in the crate); never instantiated here
+pub struct DefaultHashBuilder { }
+
+impl<K, V> DrainFilterInner<'_, K, V> {
+    /// the drain_filter cursor only points at buckets that are still occupied in the table it borrows
+    pub open spec fn dfi_wf(&self) -> bool {
+        &&& self.table.wf()
+        &&& self.iter.table@.table == self.table.table@.id
+        &&& self.iter.table@.remaining.subset_of(self.table.table@.items.dom())
+        // once `remove` has freed the old table the cursor into it must have nothing left to visit
+        &&& match self.iter.leftovers { Some(li) => li@.remaining =~= Set::<int>::empty()
+                                                    || (self.table.leftovers.is_some() && li@.table == self.table.leftovers->0.table@.id
+                                                        && li@.remaining.subset_of(self.table.leftovers->0.table@.items.dom())),
+                                       None => true }
+    }
+}
+} // verus!
